@@ -35,9 +35,13 @@ def positions(tier: str, seed: int) -> list[float]:
 # overflows; large coordinates with a small span: single-precision arithmetic loses the span)
 FAR = {
     "Sigmoid": [[40.0, 20.0], [-100.0, -30.0], [1000.0, 1.0], [-1000.0, 1.0]],
-    "SShape": [[1000.0, 1000.5], [-20000.0, -19900.0]],
-    "ZShape": [[1000.0, 1000.5], [-20000.0, -19900.0]],
-    "Ramp": [[1000.0, 1000.5], [1000.5, 1000.0]],
+    # (ranges so wide / narrow that a square of the width overflows / underflows while every quotient is ordinary)
+    "SShape": [[1000.0, 1000.5], [-20000.0, -19900.0], [-1e200, 1e200], [0.0, 1e-170]],
+    "ZShape": [[1000.0, 1000.5], [-20000.0, -19900.0], [-1e200, 1e200], [0.0, 1e-170]],
+    "PiShape": [[-1e200, -1e199, 1e199, 1e200]],
+    "Spike": [[0.0, -1.0], [0.5, -0.25]],  # the documented form takes the absolute value of the whole exponent
+    # (narrower than the library's comparison tolerance 1e-3: still a ramp)
+    "Ramp": [[1000.0, 1000.5], [1000.5, 1000.0], [0.5, 0.5005], [0.5005, 0.5], [0.25, 0.25 + 2.0**-12]],
     "Concave": [[1000.0, 1000.5], [1000.5, 1000.0]],
     "Arc": [[1000.0, 1000.5], [1000.5, 1000.0]],
     "Gaussian": [[1000.0, 0.25]],
